@@ -184,6 +184,9 @@ enum Ev {
     B(String),
     /// n requests hop, hop+1, ... sent one after the other, each completely written
     RN(usize, u32),
+    /// `fut = client.send_message(again).await`: request `hop` is sent completely and future k is dropped by the assignment,
+    /// without having been looked at in between
+    RS(u32, usize),
     /// hold: what the peer emits from now on is kept back ...
     H,
     /// ... and delivered in one piece here
@@ -278,6 +281,10 @@ pub fn run(st: &State, t: &mut Toks) -> PResult<String> {
             "RN" => {
                 let n = t.usize_dec()?;
                 Ev::RN(n, t.u32()?)
+            }
+            "RS" => {
+                let h = t.u32()?;
+                Ev::RS(h, t.usize_dec()?)
             }
             "H" => Ev::H,
             "U" => Ev::U,
@@ -472,6 +479,26 @@ pub fn run(st: &State, t: &mut Toks) -> PResult<String> {
                             let r = c.send_message(req).await.map_err(|_| ());
                             results.push(Some(r));
                         }
+                    }
+                    Ev::RS(h, k) => {
+                        if let Some((idx, jh)) = inflight.take() {
+                            conns[conns.len() - 1].0.allow(None);
+                            results[idx] = Some(jh.await.unwrap_or(Err(())));
+                        }
+                        conns[conns.len() - 1].0.allow(None);
+                        let mut req = DiameterMessage::new(cmd_app_of(h).0, cmd_app_of(h).1, 0x80 | 0x10, h, 7, Arc::clone(&dict));
+                        req.add_avp(264, None, M, Identity::new("host.example.com").into());
+                        let r = {
+                            let mut c = client.lock().await;
+                            c.send_message(req).await.map_err(|_| ())
+                        };
+                        // the assignment: the new future takes the place of the old one, which is dropped unseen
+                        let has_future = matches!(results.get(k), Some(Some(Ok(_))));
+                        if has_future && !dropped.contains(&k) {
+                            dropped.push(k);
+                            results[k] = None;
+                        }
+                        results.push(Some(r));
                     }
                     Ev::Sel(c) => {
                         if c < conns.len() {
